@@ -265,6 +265,111 @@ pub fn run_splits(args: &Args, mut out: Out) {
     out.finish();
 }
 
+
+// ------------------------------------------------------------------------------ req-splits
+/// `read_http_request` called repeatedly on ONE buffer of N bytes (as a connection does) until it fails:
+/// the list of outcomes, the path of every request read, what is left unread.
+fn run_requests<const N: usize>(data: &[u8], cuts: &[usize]) -> (Vec<(String, Vec<u8>)>, usize, bool) {
+    let mut buf: FixedBuf<N> = FixedBuf::new();
+    let mut rd = ScriptedReader::with_cuts(data.to_vec(), cuts);
+    let mut outs = vec![];
+    let budget = data.len() + 8;
+    for _ in 0..12 {
+        let res = catch(|| poll_budget(read_http_request(localhost(1), &mut buf, &mut rd), budget));
+        match res {
+            Err(()) => {
+                outs.push(("Panic".to_string(), vec![]));
+                break;
+            }
+            Ok(None) => {
+                outs.push(("Hang".to_string(), vec![]));
+                break;
+            }
+            Ok(Some(Err(e))) => {
+                outs.push((http_err_name(&e), vec![]));
+                break;
+            }
+            Ok(Some(Ok(req))) => outs.push(("Ok".to_string(), req.url().path().as_bytes().to_vec())),
+        }
+    }
+    (outs, buf.len() + rd.unread(), rd.polls > 3 * data.len() + 20)
+}
+fn run_requests_n(n: usize, data: &[u8], cuts: &[usize]) -> (Vec<(String, Vec<u8>)>, usize, bool) {
+    match n {
+        24 => run_requests::<24>(data, cuts),
+        32 => run_requests::<32>(data, cuts),
+        40 => run_requests::<40>(data, cuts),
+        48 => run_requests::<48>(data, cuts),
+        64 => run_requests::<64>(data, cuts),
+        _ => run_requests::<8192>(data, cuts),
+    }
+}
+
+/// C01 at the level of a connection: several heads follow one another on one stream and share one buffer
+/// (`buf.shift()` makes the whole buffer available to each).  Wires of 2..4 bodiless requests whose heads
+/// individually fit the buffer (some exactly), some followed by a head that does not, under EVERY 1-, 2- and 3-piece
+/// partition plus byte-at-a-time; the set of distinct outcome lists is logged (it must be a singleton).
+pub fn run_req_splits(args: &Args, mut out: Out) {
+    let n = args.u64("n", 60);
+    let mut r = args.rng();
+    let mut nruns = 0u64;
+    for sid in 1..=n {
+        let size = *[24usize, 32, 40, 48, 64].choose(&mut r).unwrap();
+        let nreq = r.gen_range(2..=4);
+        let mut wire: Vec<u8> = vec![];
+        for i in 0..nreq {
+            // "GET /<pad> HTTP/1.1\r\n\r\n" is 18 + pad bytes; optionally one short field
+            let with_field = size >= 32 && r.gen_bool(0.3);
+            let base = 18 + if with_field { 5 } else { 0 };
+            let max_pad = size - base;
+            let pad = match r.gen_range(0..6) {
+                0 => max_pad,                                  // the head fills the buffer exactly
+                1 => max_pad.saturating_sub(1),
+                2 if i == nreq - 1 => max_pad + 1 + r.gen_range(0..3), // one byte (or more) too long: HeadTooLong
+                _ => r.gen_range(0..=max_pad),
+            };
+            wire.extend_from_slice(b"GET /");
+            wire.extend(std::iter::repeat(b'a' + (i as u8)).take(pad));
+            wire.extend_from_slice(b" HTTP/1.1\r\n");
+            if with_field {
+                wire.extend_from_slice(b"x:y\r\n");
+            }
+            wire.extend_from_slice(b"\r\n");
+        }
+        if r.gen_bool(0.25) {
+            let cut = r.gen_range(1..8).min(wire.len());
+            wire.truncate(wire.len() - cut); // the last head is cut short: Truncated
+        }
+        if !out.wants(sid) {
+            continue;
+        }
+        let l = wire.len();
+        let mut outcomes: BTreeSet<(Vec<(String, Vec<u8>)>, usize, bool)> = BTreeSet::new();
+        for a in 0..=l {
+            for b in a..=l {
+                let mut cuts = vec![];
+                if a > 0 && a < l {
+                    cuts.push(a);
+                }
+                if b > a && b < l {
+                    cuts.push(b);
+                }
+                outcomes.insert(run_requests_n(size, &wire, &cuts));
+                nruns += 1;
+            }
+        }
+        outcomes.insert(run_requests_n(size, &wire, &(1..l).collect::<Vec<_>>()));
+        let outs: Vec<Value> = outcomes
+            .iter()
+            .map(|(list, rest, lp)| json!({"list": list.iter().map(|(k, p)| json!({"k":k,"path":ints(p)})).collect::<Vec<_>>(), "rest": rest, "loop": lp}))
+            .collect();
+        out.ev(sid, "Reset", json!({}));
+        out.ev(sid, "ReqSplits", json!({"bytes":ints(&wire),"buf":size,"outcomes":outs}));
+    }
+    eprintln!("runs={nruns}");
+    out.finish();
+}
+
 /// A sample of inputs through a real server over loopback.
 pub fn run_tcp(args: &Args, mut out: Out) {
     let n = args.usize("n", 200);
